@@ -131,7 +131,27 @@ pub fn cmd_ser(args: &[String]) -> i32 {
                             let short_err = if b.is_empty() { json!("BufferTooSmall") } else {
                                 let mut short = vec![0u8; b.len() - 1];
                                 match cookie_factory::gen(gen_tls_message(&m), &mut short[..]) { Ok(_) => json!("ok"), Err(e) => json!(generr(e).split('(').next().unwrap_or("")) } };
-                            json!({"ok": true, "bytes": b, "parsed": parsed, "consumed": consumed, "bytes2": b2, "direct": direct, "per_fn": per_fn, "exact_ok": exact_ok, "short_err": short_err})
+                            // a writer that implements `write` only (no write_vectored / write_all overrides: a digest adapter, a counter, a user type)
+                            struct OnlyWrite(Vec<u8>);
+                            impl Write for OnlyWrite {
+                                fn write(&mut self, buf: &[u8]) -> std::io::Result<usize> { self.0.extend_from_slice(buf); Ok(buf.len()) }
+                                fn flush(&mut self) -> std::io::Result<()> { Ok(()) }
+                            }
+                            let plain_writer = match cookie_factory::gen(gen_tls_message(&m), OnlyWrite(Vec::new())) { Ok((w, _)) => json!(w.0), Err(e) => json!(generr(e)) };
+                            // the SAME serializer value run again after a failed attempt (the cookie-factory retry idiom: grow the buffer, call again)
+                            struct Limited(Vec<u8>, usize);
+                            impl Write for Limited {
+                                fn write(&mut self, buf: &[u8]) -> std::io::Result<usize> { let n = buf.len().min(self.1 - self.0.len()); self.0.extend_from_slice(&buf[..n]); Ok(n) }
+                                fn flush(&mut self) -> std::io::Result<()> { Ok(()) }
+                            }
+                            let retry = {
+                                let ser = gen_tls_message(&m);
+                                let _ = cookie_factory::gen(&ser, Limited(Vec::new(), b.len() / 2));
+                                let _ = cookie_factory::gen(&ser, Limited(Vec::new(), b.len().saturating_sub(1)));
+                                match cookie_factory::gen(&ser, Limited(Vec::new(), b.len() + 64)) { Ok((w, _)) => json!(w.0), Err(e) => json!(generr(e)) }
+                            };
+                            json!({"ok": true, "bytes": b, "parsed": parsed, "consumed": consumed, "bytes2": b2, "direct": direct, "per_fn": per_fn, "exact_ok": exact_ok, "short_err": short_err,
+                                   "plain_writer": plain_writer, "retry": retry})
                         }
                     }
                 }
